@@ -107,6 +107,12 @@ impl<W: Write> Cases<W> {
             self.samples.push(self.cur.clone());
         }
         self.out.write_all(self.cur.as_bytes()).unwrap();
+        // no case is in flight any more: a panic of the harness between two cases must not be attributed
+        if let Some(p) = &self.inflight {
+            if std::path::Path::new(p).exists() {
+                let _ = std::fs::remove_file(p);
+            }
+        }
     }
     pub fn bump(&mut self, key: &str, n: u64) {
         *self.stats.entry(key.to_string()).or_insert(0) += n;
